@@ -27,7 +27,8 @@ META = {
         'property.  (D4) date-times with a zone name are converted with astimezone (shared with C17.D2); (D1) also: the text captured for Uri/Bin/Ref/str/XStr/unit reaches the constructor verbatim (no substitution, strip or case change between capture and constructor).  Also: the h: time fields are converted with int() on digit text (no float leg; fraction cut/padded as text, never scaled by its unsliced length).  Not decided: microsecond arithmetic results, tz application (C17), JSON text parsing.'
         ' Also (D4): the handler around the zone look-up catches what zoneinfo.timezone raises.'
         ' Also (D2): parse entries compare the mode only after _parse_mode.'
-        ' Also (D2): the document text reaches json.loads unchanged (text flow).  (D4) astimezone() sits in a handler that catches OverflowError.  (D1) greedy group splits.'),
+        ' Also (D2): the document text reaches json.loads unchanged (text flow).  (D4) astimezone() sits in a handler that catches OverflowError.  (D1) greedy group splits.'
+        ' Round 9: (D4) the zone tables are published complete (a table filled in place is read half-built by a second reader thread, whose handler then keeps the fixed offset).'),
     'rule_text': 'obligations = spellings x (first-accepting entry, whole-length match), type-order facts, structure '
                  'facts, destructive call sites x freshness',
     'trusted_base': ['json.loads and copy.deepcopy return objects that share nothing mutable with their argument'],
